@@ -1,13 +1,13 @@
 #!/bin/sh
 # try_mutant.sh <ID> [tier]: rebase the seeded change in /tmp/mut/<ID> onto /repo's HEAD and run
 # ./check <ID> against that worktree (VERIF_REPO), keeping the log in /tmp/main/mut/check-<ID>.log
-id=$1; tier=${2:-quick}; wt=/tmp/mut/$id
+id=$1; tier=${2:-quick}; M=${MUTDIR:-/tmp/mut}; L=${MUTLOG:-/tmp/main/mut}; wt=$M/$id
 cd $wt || exit 2
 head=$(git -C /repo rev-parse HEAD)
 if [ "$(git rev-parse HEAD)" != "$head" ]; then
-  git diff -- . ':(exclude)*_test.go' > /tmp/mut/$id.srcpatch
+  git diff -- . ':(exclude)*_test.go' > $M/$id.srcpatch
   git stash -q -u && git checkout -q --detach $head && git stash pop -q || { echo "REBASE FAILED"; exit 3; }
 fi
-cd /verif && VERIF_HARNESS_CMD=dev_$(echo $id | tr A-Z a-z) VERIF_REPO=$wt timeout 3000 ./check $id --tier $tier > /tmp/main/mut/check-$id.log 2>&1
-echo "exit=$?" >> /tmp/main/mut/check-$id.log
-grep -v "^WARNING conda\|^KNOWN-FINDING" /tmp/main/mut/check-$id.log | tail -4
+cd /verif && VERIF_HARNESS_CMD=dev_$(echo $id | tr A-Z a-z) VERIF_REPO=$wt timeout 3000 ./check $id --tier $tier > $L/check-$id.log 2>&1
+echo "exit=$?" >> $L/check-$id.log
+grep -v "^WARNING conda\|^KNOWN-FINDING" $L/check-$id.log | tail -4
